@@ -63,6 +63,9 @@ CHECKS = {
     "C19": dict(engine="A", technique="exhaustive finite table (size/align/offset of every struct member, every exported constant) under 3 word-size configurations + differential call of every exported C function against its C++ operation",
                 text="A generated TU measures sizeof/alignof/offsetof of every member of every C struct and its C++ counterpart and all exported constants under asm, portable-64 and portable-32 builds; the exported C functions are listed from the symbol table and each is compared byte-for-byte with the C++ operation on argument alphabets (same random stream).",
                 note="C++ side decided by C01-C16", ref="4/C19"),
+    "C20": dict(engine="P", technique="preemption-bounded exhaustive schedule exploration of the real code under a serialising scheduler (function-entry hooks), plus write-protection monitor over the library image, symbol audit of every object x configuration and a free-running ThreadSanitizer pass",
+                text="Two real threads (three in the thorough tier) each run one operation of a 32-entry menu on shared const inputs; every schedule with at most 2 preemptions at compiler-inserted function-entry points (depth calibrated per operation) is executed and each output must equal the sequential result; the library image's writable segments are made read-only while the other properties' call alphabets run, so any store to global state faults; every object file of 5 build configurations is audited for external references; the same bodies run free on 16 threads under ThreadSanitizer.",
+                note="sequentially consistent scheduler; no scheduling points inside leaf/assembly routines (races there are the job of TSan and the write monitor)", ref="4/C20"),
 }
 
 LEVEL = "model_checking"
